@@ -41,7 +41,7 @@ package proxy
 
 // A 304 renews the stored entry: its lifetime is set to now + the configured default,
 // nothing else in the record is touched, and the stored body is handed out again.
-//@ props C06 C09 C16 C15 C02
+//@ props C06 C09 C16 C15 C02 C05
 //@ func fetcher.handleUpstream304
 //@   nopanic
 //@   assigns cache. map_map_cache.CacheKey atomic.Int64 ghost:mapsum ghost:fsinode ghost:jsize ghost:jexp ghost:handleinode ghost:callcount
@@ -49,7 +49,7 @@ package proxy
 //@   ghost callsite-requires [C06,C02] UpdateMetadata keyid(arg_key) == keyid(key)
 //@   ghost callsite-requires [C06,C02] Get keyid(arg_key) == keyid(key)
 //@   ensures [C09] err == nil ==> specEntryShape(cached)
-//@   ensures [C09] err != nil ==> cached == nil && iserr(err, ErrUpdateCacheMetadata) && !iserr(err, ErrSendRequestFailed) && !iserr(err, ErrCacheResponseFailed)
+//@   ensures [C09,C05] err != nil ==> cached == nil && iserr(err, ErrUpdateCacheMetadata) && !iserr(err, ErrSendRequestFailed) && !iserr(err, ErrCacheResponseFailed)
 //@   ensures specFetchErr(err)
 
 //@ props C06 C16 C15
@@ -141,7 +141,7 @@ package proxy
 // could not be reached; trouble on the cache side (store refused or failed, entry gone
 // before a 304 could renew it) is reported as ErrNotCacheable so that the caller answers
 // the client with a fetch of its own.
-//@ props C05 C06 C09 C16 C02
+//@ props C05 C06 C09 C16 C02 C08
 //@ func fetcher.fetchUpstream
 //@   ghost callsite-requires [C02] handleUpstreamResponse keyid(arg_key) == keyid(key)
 //@   nopanic
@@ -158,9 +158,10 @@ package proxy
 //@   ensures specFetchErr(result1)
 //@   ensures result1 == nil && result0.Type == 0 ==> !result0.Cached.Coalesced
 //@   ensures [C05] upcancels >= old(upcancels) && (!ctxcancellable(old(req.ctx)) ==> upcancels == old(upcancels))
+//@   ensures [C08] result1 == nil && result0.Type == 1 ==> result0.Direct.fetchInfo.UpstreamStatus == result0.Direct.Response.StatusCode
 
 // A fetch that bypasses the cache: exactly one origin request, whose response is handed back.
-//@ props C05 C09 C16
+//@ props C05 C09 C16 C08
 //@ func fetcher.fetchDirectlyFromUpstream
 //@   nopanic
 //@   assigns http.Request@req url.URL new:http.Response map_ ghost:upstream
@@ -172,6 +173,7 @@ package proxy
 //@   ensures specReqOK(req) && req.ctx == old(req.ctx) && req.Body == old(req.Body)
 //@   ensures specFetchErr(result1)
 //@   ensures [C05] upcancels >= old(upcancels) && (!ctxcancellable(old(req.ctx)) ==> upcancels == old(upcancels))
+//@   ensures [C08] result1 == nil ==> result0.Direct.fetchInfo.UpstreamStatus == result0.Direct.Response.StatusCode
 
 //@ props C05 C09 C16 C02
 //@ func fetcher.handleCacheMiss
@@ -197,7 +199,7 @@ package proxy
 // with that entry - exactly them, nothing the client sent - and it is a copy with a header
 // map of its own: the client's request (used again for a direct fetch) never gets them.  A fresh entry is served
 // without any origin request.
-//@ props C05 C06 C09 C16 C15 C02
+//@ props C05 C06 C09 C16 C15 C02 C08
 //@ func fetcher.getFromCacheOrFetch
 //@   ghost callsite-requires [C02] Get keyid(arg_key) == keyid(key)
 //@   ghost callsite-requires [C02] handleCacheMiss keyid(arg_key) == keyid(key)
@@ -209,7 +211,7 @@ package proxy
 //@   ghost callsite-requires [C06] fetchUpstream old(specNoConditionals(req.Header)) && len(cached.Metadata.Object.ETag) == 0 ==> !in(arg_req.Header, "If-None-Match")
 //@   ghost callsite-requires [C06] fetchUpstream cached.Metadata.Object.LastModified != 0 ==> in(arg_req.Header, "If-Modified-Since") && len(arg_req.Header["If-Modified-Since"]) == 1 && sid(arg_req.Header["If-Modified-Since"][0]) == timefmt(cached.Metadata.Object.LastModified)
 //@   ghost callsite-requires [C06] fetchUpstream old(specNoConditionals(req.Header)) ==> !in(arg_req.Header, "If-Match") && !in(arg_req.Header, "If-Unmodified-Since")
-//@   ghost callsite-requires [C06] fetchUpstream arg_req != req && arg_req.Header != req.Header
+//@   ghost callsite-requires [C06,C08] fetchUpstream arg_req != req && arg_req.Header != req.Header
 //@   ghost callsite-requires [C06] handleCacheMiss old(specNoConditionals(req.Header)) ==> specNoConditionals(arg_req.Header)
 //@   ensures [C09] result1 == nil ==> specFetchShape(result0) && result0.Type == 0
 //@   ensures [C09] result1 != nil ==> iserr(result1, ErrNotCacheable) || upfails > old(upfails)
@@ -230,7 +232,7 @@ package proxy
 // shared one it waited for; and the shared run is never failed by the cancellation of the
 // request context of the one client that happens to run it (upcancels: origin requests
 // that failed because their own context was cancelled).
-//@ props C05 C09 C16 C15 C02 C01
+//@ props C05 C09 C16 C15 C02 C01 C08
 //@ func fetcher.dedupFetch
 //@   ghost callsite-requires [C02] Do sid(arg_key) == sid(key.Hex)
 //@   ghost callsite-requires [C02] getFromCacheOrFetch keyid(arg_key) == keyid(key)
@@ -241,7 +243,7 @@ package proxy
 //@   requires specFetcher(f) && req != nil && req.URL != nil && req.Header != nil && clientHd != nil
 //@   ghost callsite-requires [C06] getFromCacheOrFetch old(specNoConditionals(req.Header)) ==> specNoConditionals(arg_req.Header)
 //@   ghost shared-result [C05] (err == nil ==> specFetchShape(val) && val.Type == 0) && (err != nil ==> iserr(err, ErrNotCacheable) || upfails > old(upfails)) && specFetchErr(err)
-//@   ghost shared-result [C05] upcancels == old(upcancels)
+//@   ghost shared-result [C05,C09] upcancels == old(upcancels)
 //@   ghost shared-assigns cache. map_map_cache.CacheKey atomic.Int64 ghost:mapsum ghost:fsinode ghost:jsize ghost:jexp ghost:handleinode ghost:isize ghost:icontent
 //@   ensures old(specHdInv(clientHd)) ==> specHdInv(clientHd)
 //@   ensures !iserr(err, ErrRangeNotSatisfiable) && !iserr(err, ErrIfRangeMismatch)
@@ -252,6 +254,7 @@ package proxy
 //@   ensures upfails >= old(upfails) && upcalls >= old(upcalls)
 //@   ensures sferrs >= old(sferrs)
 //@   ensures specReqOK(req) && req.ctx == old(req.ctx) && req.Body == old(req.Body)
+//@   ensures [C08] err == nil && fetched.Type == 1 ==> fetched.Direct.fetchInfo.UpstreamStatus == fetched.Direct.Response.StatusCode
 
 //@ props C07 C16 C15 C02
 //@ func Proxy.handleRangeRequest
@@ -359,7 +362,7 @@ package proxy
 // answers with an error of its own making, only when an origin request failed (its own
 // or the shared one it waited for), when the client's Range cannot be satisfied, or when
 // writing to the client failed.
-//@ props C09 C16 C15 C02 C01 C08
+//@ props C09 C16 C15 C02 C01 C08 C07
 //@ func Proxy.processRequest
 //@   ghost callsite-requires [C02] dedupFetch keyid(arg_key) == keyid(key)
 //@   ghost callsite-requires [C02] handleRangeRequest keyid(arg_key) == keyid(key)
